@@ -136,7 +136,9 @@ where
             StreamsBlockedFrame::Bi(max) => (Dir::Bi, max.into_u64()),
             StreamsBlockedFrame::Uni(max) => (Dir::Uni, max.into_u64()),
         };
-        if let Some(max_streams) = self.ctrl.on_streams_blocked(dir, max_streams) {
+        if let Some(max_streams) = self.ctrl.on_streams_blocked(dir, max_streams)
+            && max_streams > self.max[dir as usize]
+        {
             self.max[dir as usize] = max_streams;
             self.max_tx.send_frame([MaxStreamsFrame::with(
                 dir,
